@@ -5,15 +5,18 @@ from vlib.util import LEAN
 
 def setup():
     """build the Lean library, the proofs and the driver from the files on disk"""
-    # regenerate every translated Lean file from the current /repo sources
+    # regenerate every translated Lean file from the current /repo sources; a target whose source left the translatable subset keeps
+    # its previous file and does not stop the others (reported by the check that owns it, py2lean/scope.py)
     import importlib
-    for name, fn in (('py2lean.route', 'regenerate'), ('py2lean.translate', 'regenerate_all')):
+    for name, fn, kw in (('py2lean.route', 'regenerate', {}), ('py2lean.translate', 'regenerate_all', {'tolerate': True})):
         try:
             mod = importlib.import_module(name)
         except ImportError:
             continue
         try:
-            getattr(mod, fn)()
+            getattr(mod, fn)(**kw)
+            for stem, msg in getattr(mod, 'FAILED', {}).items():
+                print(f'setup: Generated/{stem}.lean kept as it was: {msg}')
         except Exception as x:      # a source outside the translatable subset: reported by the checks that depend on it
             print(f'setup: {name}.{fn} did not complete: {x!r}')
     ok, log = framework.lake_build([])
@@ -23,10 +26,27 @@ def setup():
         # business of the check that owns it (each check rebuilds its own targets and reports): build the rest.
         print('setup: the full build did not complete; building the targets one by one')
         okd, _ = framework.lake_build(['driver'])
+        if not okd:
+            # a freshly generated file the driver links (Route, TcpCC) does not compile: the driver is built with the pinned
+            # translation; the owning check regenerates the file and reports
+            try:
+                from py2lean import scope
+                back = scope.restore_pinned([s_ for s_ in scope.generated_in(['Driver']) if s_ in scope.DRIVER_DEPS])
+                print(f'setup: driver dependencies restored to their pinned translation: {back}')
+                okd, _ = framework.lake_build(['driver'])
+            except ImportError:
+                pass
         print(f'setup: driver {"built" if okd else "NOT built"}')
+        try:
+            from py2lean import scope
+            extra = scope.BRIDGE_MODULES
+        except ImportError:
+            extra = {}
         for i in range(1, 21):
-            okp, _ = framework.lake_build([f'OnlVerif.Props.C{i:02d}'])
-            print(f'setup: OnlVerif.Props.C{i:02d} {"built" if okp else "NOT built (reported by ./check C%02d)" % i}')
+            prop = f'C{i:02d}'
+            for m in [f'OnlVerif.Props.{prop}'] + list(extra.get(prop, ())):
+                okp, _ = framework.lake_build([m])
+                print(f'setup: {m} {"built" if okp else "NOT built (reported by ./check %s)" % prop}')
         return 0 if okd else 2
     return 0
 
